@@ -467,6 +467,70 @@ theorem roundHalfUp_spec (d : Nat) (x : Rat) :
       rw [abs_of_neg h0, abs_neg, abs_of_nonneg (by linarith)]
       exact hz
 
+theorem roundedVotesWith_eq {κ : Type} [DecidableEq κ] (mode : RoundMode) (k : Nat) {p : Dict κ} (h : (dkeys p).Nodup) :
+    roundedVotesWith mode k p = p.map (fun kv => (kv.1, roundWith mode k kv.2)) := by
+  unfold roundedVotesWith
+  apply dictOf_of_nodup
+  have : dkeys (p.map (fun kv => (kv.1, roundWith mode k kv.2))) = dkeys p := by
+    unfold dkeys; rw [List.map_map]; rfl
+  rw [this]; exact h
+
+theorem floor_near (s : Rat) : |s - ((s.floor : Int) : Rat)| < 1 := by
+  have h1 := Rat.floor_le s
+  have h2 := Rat.lt_floor_add_one s
+  push_cast at h2
+  rw [abs_lt]; constructor <;> linarith
+
+theorem ceil_near (s : Rat) : |s - ((s.ceil : Int) : Rat)| < 1 := by
+  have h1 := Rat.le_ceil (x := s)
+  have h2 := Rat.ceil_lt (x := s)
+  rw [abs_lt]; constructor <;> linarith
+
+/-- whatever the mode, the result is one of the two neighbouring grid points -/
+theorem roundInt_near (mode : RoundMode) (s : Rat) : |s - ((roundInt mode s : Int) : Rat)| < 1 := by
+  cases mode <;> simp only [roundInt]
+  · -- halfUp
+    split
+    · have h1 := Rat.floor_le (s + 1 / 2)
+      have h2 := Rat.lt_floor_add_one (s + 1 / 2)
+      push_cast at h2
+      rw [abs_lt]; constructor <;> linarith
+    · have h1 := Rat.floor_le (-s + 1 / 2)
+      have h2 := Rat.lt_floor_add_one (-s + 1 / 2)
+      push_cast at h2 ⊢
+      rw [abs_lt]; constructor <;> linarith
+  · split
+    · exact floor_near s
+    · split
+      · exact ceil_near s
+      · split
+        · exact floor_near s
+        · exact ceil_near s
+  · split
+    · exact floor_near s
+    · split
+      · exact ceil_near s
+      · split
+        · exact floor_near s
+        · exact ceil_near s
+  · split
+    · exact floor_near s
+    · exact ceil_near s
+  · split
+    · exact ceil_near s
+    · exact floor_near s
+  · exact ceil_near s
+  · exact floor_near s
+  · split
+    · split
+      · exact ceil_near s
+      · exact floor_near s
+    · split
+      · exact floor_near s
+      · exact ceil_near s
+
+theorem roundWith_halfUp (d : Nat) (x : Rat) : roundWith .halfUp d x = roundHalfUp d x := rfl
+
 /-! ### IndividualToPartyVotes -/
 
 /-- the party key of a candidate where the mapper does not raise; `none` = ignored -/
